@@ -467,6 +467,9 @@ Proof.
   destruct (_ || _); [discriminate|]. destruct (unify _ _); discriminate.
 Qed.
 
+Lemma dyn_unmarked_deep_marks v : ty_eqb (type_of v) TDyn = true -> is_marked v = false -> deep_marks v = [].
+Proof. intros T M. destruct v; simpl in T; try discriminate; try reflexivity. Qed.
+
 Lemma unmark_unmarked v : is_marked v = false -> unmark v = (v, []).
 Proof. destruct v; try reflexivity. discriminate. Qed.
 
@@ -561,10 +564,12 @@ Proof.
     + destruct (DT cv SP TB tv ST SE) as [X Y].
       destruct (cond_uni_left tv fv GT X Y) as [r1 [r2 [r3 [U PK]]]]. rewrite UNI in U. inversion U; subst r1 r2 r3.
       rewrite (unmark_unmarked fv Y) in UF. inversion UF; subst fu fm.
+      rewrite (dyn_unmarked_deep_marks fv X Y).
       cbn [marks_unions fold_right marks_union].
       unfold pick_conv in PK. destruct tc; [rewrite PK|]; cbn [with_marks];
         apply refines1_intro; intro HU; right; rewrite has_errors_app, ErP, ErT; auto.
     + rewrite (good_unmark fv GE) in UF. inversion UF; subst fu fm.
+      rewrite (proj2 (good_deep fv GE)).
       cbn [marks_unions fold_right marks_union].
       pose proof (cond_uni_clean tv fv GT GE) as CU. rewrite UNI in CU. destruct CU as [SU [PK _]].
       rewrite SU. unfold to_type. unfold pick_conv in PK. destruct tc.
@@ -582,10 +587,12 @@ Proof.
     + destruct (DE cv SP TB fv SE ST) as [X Y].
       destruct (cond_uni_right tv fv GE X Y) as [r1 [r2 [r3 [U PK]]]]. rewrite UNI in U. inversion U; subst r1 r2 r3.
       rewrite (unmark_unmarked tv Y) in UT. inversion UT; subst tu tm.
+      rewrite (dyn_unmarked_deep_marks tv X Y).
       cbn [marks_unions fold_right marks_union].
       unfold pick_conv in PK. destruct fc; [rewrite PK|]; cbn [with_marks];
         apply refines1_intro; intro HU; right; rewrite has_errors_app, ErP, ErE; auto.
     + rewrite (good_unmark tv GT) in UT. inversion UT; subst tu tm.
+      rewrite (proj2 (good_deep tv GT)).
       cbn [marks_unions fold_right marks_union].
       pose proof (cond_uni_clean tv fv GT GE) as CU. rewrite UNI in CU. destruct CU as [SU [_ PK]].
       rewrite SU. unfold to_type. unfold pick_conv in PK. destruct fc.
